@@ -150,6 +150,19 @@ impl MV {
     /// convert a VM value into the model (tables in iteration order); function-like objects
     /// become Func(kind, 0)
     pub fn from_value(v: Value) -> MV {
+        Self::from_value_d(v, 0)
+    }
+
+    /// tables nested deeper than 6 levels are cut with the marker "<deep>" (the reference
+    /// interpreter's conversion cuts at the same depth), which also bounds cyclic tables
+    fn from_value_d(v: Value, depth: u32) -> MV {
+        if depth > 6 {
+            if let Value::Object(o) = v {
+                if unsafe { o.as_ref().as_table().is_some() } {
+                    return MV::Str("<deep>".into());
+                }
+            }
+        }
         match v {
             Value::Nil => MV::Nil,
             Value::Integer(i) => MV::Int(i),
@@ -159,7 +172,7 @@ impl MV {
                 if let Some(s) = o.as_str() {
                     MV::Str(s.to_string())
                 } else if let Some(t) = o.as_table() {
-                    MV::Table(t.iter().map(|(k, v)| (MV::from_value(*k), MV::from_value(*v))).collect())
+                    MV::Table(t.iter().map(|(k, v)| (MV::from_value_d(*k, depth + 1), MV::from_value_d(*v, depth + 1))).collect())
                 } else {
                     let kind = match o.type_name() {
                         "Function" => 1,
